@@ -52,7 +52,9 @@ type cliResult struct {
 	dur      time.Duration
 }
 
-func runCLI(dir string, args ...string) cliResult {
+func runCLI(dir string, args ...string) cliResult { return runCLIEnv(dir, []string{"HOME=" + dir}, args...) }
+
+func runCLIEnv(dir string, env []string, args ...string) cliResult {
 	bin, err := frugalCLI()
 	if err != nil {
 		return cliResult{exit: -2, out: err.Error()}
@@ -61,7 +63,7 @@ func runCLI(dir string, args ...string) cliResult {
 	defer cancel()
 	cmd := exec.CommandContext(ctx, bin, args...)
 	cmd.Dir = dir
-	cmd.Env = append(os.Environ(), "HOME="+dir)
+	cmd.Env = append(os.Environ(), env...)
 	var buf bytes.Buffer
 	cmd.Stdout, cmd.Stderr = &buf, &buf
 	t0 := time.Now()
